@@ -78,6 +78,9 @@ pub fn fuzz_stage(
             .arg("-max_len=600")
             .arg("-len_control=0")
             .arg("-rss_limit_mb=4096")
+            // a unit that needs longer is written as timeout-* and re-judged below (the SWC parser
+            // has exponential inputs; those are discarded as "parser-exceeded-cpu-budget")
+            .arg("-timeout=25")
             .arg(format!("-artifact_prefix={}/", out.display()))
             .arg(&corpus)
             .output()
